@@ -20,10 +20,13 @@ Theorem C12_pins :
      exponentially: the "never hangs" clause) breaks this obligation *)
   /\ Gen.field_opt_patt_src
     = [40;46;43;63;41;40;61;40;34;91;94;34;93;42;34;124;46;43;63;41;41;63;40;59;124;36;41]%N
+  (* end_headers_patt of the streaming parser (re-implemented in Multipart.hsearch) *)
+  /\ Gen.end_headers_patt_src
+    = [40; 92; 114; 92; 110; 92; 114; 92; 110; 41; 124; 40; 92; 114; 40; 92; 110; 92; 114; 63; 41; 63; 41; 36]%N
   /\ (forall cls c, emap_get Gen.errors_map cls = Some c -> (400 <= c < 500)%Z)
   /\ (exists c, emap_get Gen.errors_map n_RequestError = Some c).
 Proof.
-  split; [exact boundary_patt_pinned|]. split; [exact field_opt_patt_pinned|]. split; [exact errors_map_codes|].
+  split; [exact boundary_patt_pinned|]. split; [exact field_opt_patt_pinned|]. split; [exact end_headers_patt_pinned|]. split; [exact errors_map_codes|].
   destruct errors_map_request_error as (c & H & _). now exists c.
 Qed.
 Print Assumptions C12_pins.
